@@ -110,6 +110,20 @@ def query(cls, sheet_idx, row, col, overrides=None):
     return guarded(_q, 'evaluate')
 
 
+def query_many(cls, targets, overrides=None):
+    """one fresh Executor, one override batch, several guarded queries. targets: [(sheet_idx,row,col)]"""
+    try:
+        ex = Executor().set_executed_class(class_object=cls)
+        if overrides:
+            ex.set_cells([ncell(s, r, c, v) for (s, r, c, v) in overrides])
+    except (KeyboardInterrupt, SystemExit):
+        raise
+    except BaseException as e:  # noqa: B902
+        o = _exc_outcome(e, 'evaluate')
+        return [o for _ in targets]
+    return [guarded(lambda t=t: ex.get_cell(ncell(*t)).value, 'evaluate') for t in targets]
+
+
 class Book:
     """One workbook spec translated with the real Parser. Whole-file first; if that raises, every formula
     cell of interest is translated on its own through the entry-point API, so one bad formula cannot mask
@@ -179,3 +193,11 @@ class Book:
         if overrides:
             ov = [(s, *rc(a), v) for (s, a, v) in overrides]
         return query(k.value, si, r, c, ov)
+
+    def values(self, si, addrs, overrides=None):
+        """several cells of one sheet under one override batch (whole-file mode); falls back to value()"""
+        from .wbspec import rc
+        if self.cls is None:
+            return [self.value(si, a, overrides) for a in addrs]
+        ov = [(s, *rc(a), v) for (s, a, v) in overrides] if overrides else None
+        return query_many(self.cls, [(si, *rc(a)) for a in addrs], ov)
